@@ -15,7 +15,7 @@ pub fn property() -> Property {
     Property {
         id: "C18",
         level: "fault_enumeration",
-        rule: "a pool of valid (certificate, key) pairs from rcgen (ECDSA P-256 and Ed25519, distinct SANs) plus an expired certificate with its key; histories over a temp directory: WriteCert(x) / WriteKey(y) with x, y in {pool member, truncation prefix of a member, empty, garbage, PEM of the wrong kind, deleted}, Reload, Handshake (in-memory TLS handshake against get_acceptor() and against a snapshot taken the way server.rs takes it, the leaf certificate is captured by the client), PingOld (a TLS connection opened before any reload still carries data); two-file updates are two separate writes with a Reload possible in between. Fixed cases enumerate every truncation prefix of a certificate file and of a key file (quick: one of each in steps, thorough: two of each, every byte). Model = last pair for which a reload succeeded. Non-trivial = a failed reload followed by a handshake, or a reload between the two writes of an update. Distinct = distinct serialized case. Pool members 5 and 6 are chains (a leaf signed by a CA of its own; the certificate file is leaf + CA certificate): every truncation prefix of such a file is enumerated as well - a cut between the complete first block and the properly begun second block, or inside the last line of a block, may load or not; any other cut must fail the reload. Member 7 is member 0 renewed: the same key and the same serial number, another certificate (names, validity) - a reload to it must be served by every later handshake like any other. One client configuration is kept for the whole history (it stores TLS sessions, as a real client's connector does) and handshakes again after every reload next to fresh clients; the certificate a connection is bound to is read from the connection itself, so a resumed session counts as what it is. Three histories in ten (and one fixed case) use configured paths that are symbolic links into a directory of generations: every write creates a new generation file and re-points the link by rename.",
+        rule: "a pool of valid (certificate, key) pairs from rcgen (ECDSA P-256 and Ed25519, distinct SANs) plus an expired certificate with its key; histories over a temp directory: WriteCert(x) / WriteKey(y) with x, y in {pool member, truncation prefix of a member, empty, garbage, PEM of the wrong kind, deleted}, Reload, Handshake (in-memory TLS handshake against get_acceptor() and against a snapshot taken the way server.rs takes it, the leaf certificate is captured by the client), PingOld (a TLS connection opened before any reload still carries data); two-file updates are two separate writes with a Reload possible in between. Fixed cases enumerate every truncation prefix of a certificate file and of a key file (quick: one of each in steps, thorough: two of each, every byte). Model = last pair for which a reload succeeded. Non-trivial = a failed reload followed by a handshake, or a reload between the two writes of an update. Distinct = distinct serialized case. Pool members 5 and 6 are chains (a leaf signed by a CA of its own; the certificate file is leaf + CA certificate): every truncation prefix of such a file is enumerated as well - a cut between the complete first block and the properly begun second block, or inside the last line of a block, may load or not; any other cut must fail the reload. Member 7 is member 0 renewed: the same key and the same serial number, another certificate (names, validity) - a reload to it must be served by every later handshake like any other. One client configuration is kept for the whole history (it stores TLS sessions, as a real client's connector does) and handshakes again after every reload next to fresh clients; the certificate a connection is bound to is read from the connection itself, so a resumed session counts as what it is. Three histories in ten (and one fixed case) use configured paths that are symbolic links into a directory of generations: every write creates a new generation file and re-points the link by rename. Two generated cases in five write their files with one preserved old modification time (cp -p, rsync -t) or with modification times that decrease from write to write (a roll-back): what a reload does depends on what the files hold, not on their times.",
         assumptions: vec![
             "rustls/rcgen/tokio-rustls as trusted dependencies; handshakes over tokio::io::duplex",
             "a prefix that ends inside the final PEM line may load or not; serve/info must agree with the result",
@@ -121,6 +121,25 @@ pub struct ReloadCase {
     /// new generation and re-points the link (the certbot `live/` -> `archive/` layout)
     #[serde(default)]
     pub symlinked: bool,
+    /// modification times of the files that are written: 0 = whatever the clock says, 1 = always the
+    /// same old instant (a restore with preserved times: `cp -p`, `rsync -t`), 2 = every write one hour
+    /// older than the one before (a roll-back to an earlier pair). What a reload does depends on what the
+    /// files hold, not on their times.
+    #[serde(default)]
+    pub mtime_mode: u8,
+}
+
+fn set_mtime(path: &std::path::Path, mode: u8, writes: &mut u64) {
+    *writes += 1;
+    let base = std::time::UNIX_EPOCH + std::time::Duration::from_secs(1_000_000_000);
+    let t = match mode {
+        1 => base,
+        2 => base - std::time::Duration::from_secs(3600 * *writes),
+        _ => return,
+    };
+    if let Ok(f) = std::fs::File::options().write(true).open(path) {
+        let _ = f.set_modified(t);
+    }
 }
 
 pub struct ReloadFam;
@@ -332,7 +351,7 @@ impl Family for ReloadFam {
             3 => Just(ROp::Handshake),
             1 => Just(ROp::PingOld),
         ];
-        (0u8..4, proptest::collection::vec(op, 1..16), proptest::bool::weighted(0.3)).prop_map(|(initial, ops, symlinked)| ReloadCase { initial, ops, symlinked }).boxed()
+        (0u8..4, proptest::collection::vec(op, 1..16), proptest::bool::weighted(0.3), prop_oneof![3 => Just(0u8), 1 => Just(1u8), 1 => Just(2u8)]).prop_map(|(initial, ops, symlinked, mtime_mode)| ReloadCase { initial, ops, symlinked, mtime_mode }).boxed()
     }
     fn fixed_cases(&self, tier: Tier) -> Vec<ReloadCase> {
         let ms = members();
@@ -356,20 +375,20 @@ impl Family for ReloadFam {
                     } else {
                         vec![ROp::WriteCert(FileState::Member(i as u8)), ROp::WriteKey(st), ROp::Reload, ROp::Handshake, ROp::PingOld]
                     };
-                    v.push(ReloadCase { initial: 0, ops, symlinked: false });
+                    v.push(ReloadCase { initial: 0, ops, symlinked: false, mtime_mode: 0 });
                     n += step;
                 }
             }
         }
         // updates published by re-pointing symbolic links
-        v.push(ReloadCase { initial: 0, ops: vec![ROp::WriteKey(FileState::Member(1)), ROp::WriteCert(FileState::Member(1)), ROp::Reload, ROp::Handshake, ROp::WriteKey(FileState::Member(2)), ROp::WriteCert(FileState::Member(2)), ROp::Reload, ROp::Handshake, ROp::PingOld], symlinked: true });
+        v.push(ReloadCase { initial: 0, ops: vec![ROp::WriteKey(FileState::Member(1)), ROp::WriteCert(FileState::Member(1)), ROp::Reload, ROp::Handshake, ROp::WriteKey(FileState::Member(2)), ROp::WriteCert(FileState::Member(2)), ROp::Reload, ROp::Handshake, ROp::PingOld], symlinked: true, mtime_mode: 0 });
         // a renewal that keeps key and serial number: only the certificate file changes, there and back
-        v.push(ReloadCase { initial: 0, ops: vec![ROp::WriteCert(FileState::Member(7)), ROp::Reload, ROp::Handshake, ROp::Handshake, ROp::WriteCert(FileState::Member(0)), ROp::Reload, ROp::Handshake, ROp::PingOld], symlinked: false });
+        v.push(ReloadCase { initial: 0, ops: vec![ROp::WriteCert(FileState::Member(7)), ROp::Reload, ROp::Handshake, ROp::Handshake, ROp::WriteCert(FileState::Member(0)), ROp::Reload, ROp::Handshake, ROp::PingOld], symlinked: false, mtime_mode: 0 });
         // reload landing between the two writes of an update, both orders
         for (a, b) in [(0u8, 1u8), (1, 2), (2, 3), (3, 0)] {
-            v.push(ReloadCase { initial: a, ops: vec![ROp::WriteCert(FileState::Member(b)), ROp::Reload, ROp::Handshake, ROp::WriteKey(FileState::Member(b)), ROp::Reload, ROp::Handshake, ROp::PingOld], symlinked: false });
-            v.push(ReloadCase { initial: a, ops: vec![ROp::WriteKey(FileState::Member(b)), ROp::Reload, ROp::Handshake, ROp::WriteCert(FileState::Member(b)), ROp::Reload, ROp::Handshake, ROp::PingOld], symlinked: false });
-            v.push(ReloadCase { initial: a, ops: vec![ROp::WriteCert(FileState::Member(4)), ROp::WriteKey(FileState::Member(4)), ROp::Reload, ROp::Handshake], symlinked: false });
+            v.push(ReloadCase { initial: a, ops: vec![ROp::WriteCert(FileState::Member(b)), ROp::Reload, ROp::Handshake, ROp::WriteKey(FileState::Member(b)), ROp::Reload, ROp::Handshake, ROp::PingOld], symlinked: false, mtime_mode: 0 });
+            v.push(ReloadCase { initial: a, ops: vec![ROp::WriteKey(FileState::Member(b)), ROp::Reload, ROp::Handshake, ROp::WriteCert(FileState::Member(b)), ROp::Reload, ROp::Handshake, ROp::PingOld], symlinked: false, mtime_mode: 0 });
+            v.push(ReloadCase { initial: a, ops: vec![ROp::WriteCert(FileState::Member(4)), ROp::WriteKey(FileState::Member(4)), ROp::Reload, ROp::Handshake], symlinked: false, mtime_mode: 0 });
         }
         v
     }
@@ -387,12 +406,15 @@ impl Family for ReloadFam {
             let mut key_state = FileState::Member(init as u8);
             let mut generation = 0u32;
             let linked = case.symlinked;
-            let put = |path: &std::path::Path, f: &FileState, is_cert: bool, generation: &mut u32| {
+            let mtime_mode = case.mtime_mode;
+            let mut n_writes = 0u64;
+            let mut put = |path: &std::path::Path, f: &FileState, is_cert: bool, generation: &mut u32| {
                 if linked {
                     write_state_linked(path, f, is_cert, generation)
                 } else {
                     write_state(path, f, is_cert)
                 }
+                set_mtime(path, mtime_mode, &mut n_writes);
             };
             put(&cert_path, &cert_state, true, &mut generation);
             put(&key_path, &key_state, false, &mut generation);
@@ -516,6 +538,8 @@ impl Family for ReloadFam {
         out.class_if(case.ops.iter().any(|o| matches!(o, ROp::WriteCert(FileState::Trunc(..)) | ROp::WriteKey(FileState::Trunc(..)))), "truncated-file");
         out.class_if(case.ops.iter().any(|o| matches!(o, ROp::WriteCert(FileState::Member(4)))), "expired-cert");
         out.class_if(case.symlinked, "paths-are-symbolic-links");
+        out.class_if(case.mtime_mode == 1, "files-written-with-one-preserved-old-mtime");
+        out.class_if(case.mtime_mode == 2, "every-write-older-than-the-one-before");
         Ok(out)
     }
 }
